@@ -593,11 +593,82 @@ func parseSExpr(s string) (SExpr, error) {
 			return &SAnd{[]SExpr{a, b}}, nil
 		}
 	}
+	// implications / quantifiers nested in parentheses: parse the boolean
+	// structure ourselves (||, &&, !, parentheses), Go parses the leaves
+	if strings.Contains(s, "==>") || strings.Contains(s, "forall ") || strings.Contains(s, "exists ") {
+		if parts := splitTopStr(s, "||"); len(parts) > 1 {
+			var es []SExpr
+			for _, p := range parts {
+				e, err := parseSExpr(p)
+				if err != nil {
+					return nil, err
+				}
+				es = append(es, e)
+			}
+			return &SOr{es}, nil
+		}
+		if parts := splitTopStr(s, "&&"); len(parts) > 1 {
+			var es []SExpr
+			for _, p := range parts {
+				e, err := parseSExpr(p)
+				if err != nil {
+					return nil, err
+				}
+				es = append(es, e)
+			}
+			return &SAnd{es}, nil
+		}
+		if strings.HasPrefix(s, "!") {
+			rest := strings.TrimSpace(s[1:])
+			if strings.HasPrefix(rest, "(") && matchingParen(rest) == len(rest)-1 {
+				e, err := parseSExpr(rest)
+				if err != nil {
+					return nil, err
+				}
+				return &SNot{e}, nil
+			}
+		}
+		if strings.HasPrefix(s, "(") && matchingParen(s) == len(s)-1 {
+			return parseSExpr(s[1 : len(s)-1])
+		}
+	}
 	e, err := parser.ParseExpr(s)
 	if err != nil {
 		return nil, err
 	}
 	return &SGo{e}, nil
+}
+
+type SOr struct{ Es []SExpr }
+type SNot struct{ E SExpr }
+
+// matchingParen returns the index of the ')' matching the '(' at s[0], or -1.
+func matchingParen(s string) int {
+	depth := 0
+	inStr := byte(0)
+	for i := 0; i < len(s); i++ {
+		c := s[i]
+		if inStr != 0 {
+			if c == '\\' {
+				i++
+			} else if c == inStr {
+				inStr = 0
+			}
+			continue
+		}
+		switch c {
+		case '"', '\'', '`':
+			inStr = c
+		case '(', '[', '{':
+			depth++
+		case ')', ']', '}':
+			depth--
+			if depth == 0 {
+				return i
+			}
+		}
+	}
+	return -1
 }
 
 // contractFiles finds zz_verif_contracts*.go under root for the given package dirs.
